@@ -42,10 +42,12 @@ ObsOK(e, st) ==
     /\ e.root_real = e.root_fs
     /\ e.root_acc = e.root_fs
 
-\* A delivered block whose header folds a bitmap root (header version >= 3) carries hdr_root (what the header
-\* commits to) and hdr_root_fs (output PMMR root folded with the from-scratch bitmap root of the block's OWN
-\* state, computed by the harness). Whatever the delivery class (next block, reorganisation, block that stays on
-\* a losing fork): accepted => the header commits to the from-scratch bitmap; any other bitmap => refused.
+\* A delivered block carries hdr_root (what its header commits to) and hdr_root_fs, the commitment the property
+\* demands for the block's OWN state, computed by the harness without OutputRoots::root: header versions 1, 2 ->
+\* the bare root of the output PMMR (reference MMR of the harness); from version 3 on ->
+\* H(output_mmr_size | output PMMR root | from-scratch bitmap root).
+\* Whatever the delivery class (next block, reorganisation, block that stays on a losing fork):
+\* accepted => the header commits to exactly that; anything else => refused.
 HdrOK(e) ==
   ("hdr_root" \in DOMAIN e /\ "hdr_root_fs" \in DOMAIN e) =>
     /\ (e.res # "reject") => (e.hdr_root = e.hdr_root_fs)
